@@ -243,7 +243,7 @@ def run(prog: Program, res: Result) -> None:  # noqa: PLR0912, PLR0915
             if not renders:
                 continue
             it = loop.iter
-            structural = (isinstance(it, ast.Attribute) and is_self_attr(it)) or (isinstance(it, ast.Call) and isinstance(it.func, ast.Name) and it.func.id in ("zip", "enumerate", "reversed") and all(is_self_attr(a) for a in it.args))
+            structural = (isinstance(it, ast.Name) and it.id == "self") or (isinstance(it, ast.Attribute) and is_self_attr(it)) or (isinstance(it, ast.Call) and isinstance(it.func, ast.Name) and it.func.id in ("zip", "enumerate", "reversed") and all(is_self_attr(a) for a in it.args))
             if structural:
                 continue  # iteration over the node's own children (bounded by the template text)
             n_loops += 1
